@@ -228,7 +228,12 @@ fn discover_env_names(exe: &str) -> Option<Vec<String>> {
                 let rest = &l[i + a + 2..];
                 if let Some(b) = rest.find('"') {
                     let n = rest[..b].to_string();
-                    if !n.is_empty() && !names.contains(&n) && n.chars().all(|c| c.is_ascii_alphanumeric() || c == '_') {
+                    if !n.is_empty()
+                        && !names.contains(&n)
+                        && !n.starts_with("MOMSIM_")
+                        && !n.starts_with("VERIF_")
+                        && n.chars().all(|c| c.is_ascii_alphanumeric() || c == '_')
+                    {
                         names.push(n);
                     }
                 }
@@ -391,8 +396,12 @@ fn cross_process_leg(p: &dyn Property, thorough: bool, seed: u64, total: u64, m:
     let mut legs = Vec::new();
     let mut all: Vec<(String, BTreeMap<u64, u64>)> = vec![("sim-build x16".into(), m.run_digests.clone())];
     for (label, nw) in [("osA", 16u64), ("osB", 5u64)] {
-        let o = merge(spawn_workers(&os_exe, p.id(), thorough, seed, nw, xh, &[], label));
-        legs.push(json!({"leg": format!("cross-process {}", label), "build": "os: real OS hash keys per process, no log feature",
+        // the second group runs with every process pinned to ONE cpu: what
+        // available_parallelism() reports differs between the groups
+        let pin: Vec<(&str, String)> = if label == "osB" { vec![("MOMSIM_PIN_CPU", "1".to_string())] } else { vec![] };
+        let o = merge(spawn_workers(&os_exe, p.id(), thorough, seed, nw, xh, &pin, label));
+        legs.push(json!({"leg": format!("cross-process {}", label), "build": "os: real OS hash keys per process, no log feature, serde_json with arbitrary_precision",
+            "cpus_visible_to_each_process": if label == "osB" { json!(1) } else { json!("all") },
             "processes": nw, "runs": o.runs, "findings": o.found_total, "harness_errors": o.harness.len()}));
         m.harness.extend(o.harness.iter().map(|h| format!("[os build] {}", h)));
         for (i, s, mut f) in o.found {
@@ -819,11 +828,13 @@ pub fn replay(props: &[&dyn Property], path: &str) -> i32 {
         if let Some(d) = case["sim_digest"].as_str() {
             ds.push(d.to_string());
         }
-        for _ in 0..6 {
-            let o = Command::new(&exe)
-                .args(["xone", pid, v["tier"].as_str().unwrap_or("quick"), &seed.to_string(), &idx.to_string()])
-                .stderr(Stdio::null())
-                .output();
+        for k in 0..6 {
+            let mut c = Command::new(&exe);
+            c.args(["xone", pid, v["tier"].as_str().unwrap_or("quick"), &seed.to_string(), &idx.to_string()]).stderr(Stdio::null());
+            if k % 2 == 1 {
+                c.env("MOMSIM_PIN_CPU", "1");
+            }
+            let o = c.output();
             if let Ok(o) = o {
                 ds.push(String::from_utf8_lossy(&o.stdout).trim().to_string());
             }
